@@ -1,6 +1,7 @@
 # C19 No traffic amplification towards addresses that have not proven themselves
 import re
 from sa.rules import *
+import rules.wave3 as W3
 import rules.shared as shared
 from rules.netcode_common import *
 from sa import codec
@@ -57,4 +58,6 @@ def rules(t):
             r.sites += rr.sites
             for v in rr.violations: r.bad(v.key, v.site, v.msg)
     out.append(r)
+    out.append(W3.replies_behind_token_gate(t, "C19.h"))
+    out.append(W3.index_space(t, "C19.i"))
     return out
